@@ -54,6 +54,10 @@ type Scenario struct {
 	NoDrainClose bool
 	// Latency is a fixed one-way delay of every packet (0 = none).
 	Latency time.Duration
+	// FreeLoss, in the free-running race pass only: every FreeLoss-th
+	// packet of a direction is lost (0 = none), so that retransmissions
+	// happen there too.
+	FreeLoss int
 	// RawClient, when set, replaces the real client by a harness thread
 	// that speaks the protocol by hand; RawN is the window it proposes.
 	RawClient func(w *World)
@@ -224,6 +228,7 @@ func common(sc *Scenario, p params) {
 	sc.Cfg.NoStarve = !p.has("starve")
 	sc.Faults = FaultCfg{Drop: true, Dup: true, AfterHandshake: !p.has("hsfaults")}
 	sc.ServerFirst = p.has("serverfirst")
+	sc.FreeLoss = p.int("freeloss", 0)
 }
 
 func init() {
@@ -968,6 +973,64 @@ func init() {
 		}
 		sc.Owns = map[string]bool{"panic": true, "leak": true}
 		sc.Final = append(sc.Final, finalDeadlock)
+		sc.NoDrainClose = true
+		sc.Cfg.Horizon = 10 * time.Second
+		sc.Cfg.DrainTime = time.Second
+		return sc
+	}
+	// tmstress (free-running race pass only; nothing is enumerated): the
+	// TimeoutManager calls of the send goroutine (first transmissions and
+	// retransmissions), of the receive goroutine (ACKs, SYN, timeout
+	// reads) and of API callers, repeated so that the short windows
+	// between them overlap in real time.
+	builders["tmstress"] = func(name string, p params) *Scenario {
+		sc := &Scenario{}
+		common(sc, p)
+		sc.Faults = FaultCfg{}
+		loops := p.int("loops", 3000)
+		sc.Custom = func(w *World) {
+			opts := []gbn.TimeoutOptions{gbn.WithKeepalivePing(2*time.Second, time.Second)}
+			if p.has("static") {
+				opts = append(opts, gbn.WithStaticResendTimeout(time.Second))
+			}
+			tm := gbn.NewTimeOutManager(nil, opts...)
+			w.spawnApp("sender", func() {
+				for i := 0; i < loops; i++ {
+					seq := uint8(i % 8)
+					tm.Sent(&gbn.PacketData{Seq: seq}, false)
+					_ = tm.GetResendTimeout()
+					tm.Sent(&gbn.PacketData{Seq: seq}, true)
+					if i%16 == 0 {
+						tm.Sent(&gbn.PacketSYN{N: 2}, false)
+						tm.Sent(&gbn.PacketSYN{N: 2}, true)
+					}
+				}
+			})
+			w.spawnApp("receiver", func() {
+				for i := 0; i < loops; i++ {
+					tm.Received(&gbn.PacketACK{Seq: uint8(i % 8)})
+					_ = tm.GetResendTimeout()
+					if i%16 == 0 {
+						tm.Received(&gbn.PacketSYN{N: 2})
+						_ = tm.GetHandshakeTimeout()
+					}
+					_ = tm.GetPingTime()
+					_ = tm.GetPongTime()
+				}
+			})
+			w.spawnApp("api", func() {
+				for i := 0; i < loops; i++ {
+					tm.SetSendTimeout(time.Duration(i+1) * time.Millisecond)
+					_ = tm.GetRecvTimeout()
+					tm.SetRecvTimeout(time.Duration(i+1) * time.Millisecond)
+					_ = tm.GetSendTimeout()
+					_ = tm.GetFinSendTimeout()
+					_ = tm.GetResendTimeout()
+					_ = tm.GetHandshakeTimeout()
+				}
+			})
+		}
+		sc.Owns = map[string]bool{"panic": true, "leak": true}
 		sc.NoDrainClose = true
 		sc.Cfg.Horizon = 10 * time.Second
 		sc.Cfg.DrainTime = time.Second
